@@ -18,7 +18,7 @@ from .. import AnalysisError, anf
 from ..anf import Rat, sym
 from ..guards import (G, TRUE, FALSE, g_and, g_not, g_or, g_equiv, g_implies, g_sat, compare, canon_sign, OPS, count_true)
 from ..gvn import Frame, Obj, PW, Vec, cases_of, veq, mk_pw, Unsupported
-from .common import RuleCtx, _short, locate_loop, stored_names, range_args, sign_set_name
+from .common import RuleCtx, _short, locate_loop, stored_names, range_args, sign_set_name, returned_names
 
 C = Rat.const
 
@@ -78,10 +78,10 @@ def body_transfer(rc: RuleCtx, ev, fi, loop, env, out_list: str):
 
 
 def output_list(fi, post, env) -> str:
-    ret = [st for st in post if isinstance(st, ast.Return)]
-    if len(ret) != 1:
+    rn = returned_names(post)
+    if rn is None:
         raise AnalysisError(f"{fi.qualname}: expected one return after the loop")
-    names = [n.id for n in ast.walk(ret[0].value) if isinstance(n, ast.Name) and isinstance(env.get(n.id), Vec) and env[n.id].kind == "list"]
+    names = [n for n in sorted(rn) if isinstance(env.get(n), Vec) and env[n].kind == "list"]
     if len(names) != 1:
         raise AnalysisError(f"{fi.qualname}: cannot identify the output list")
     return names[0]
@@ -149,10 +149,46 @@ def run(ctx):
     res.require_instances("C13 obligations", len(res.obligations), 12)
 
 
+def check_short_input(rc: RuleCtx, rule: str, fi, extra_args=None) -> bool:
+    """Every path that returns the knees argument itself (unfiltered) must be guarded by len(knees) <= 1:
+    with two or more knees the selection rule has to be applied."""
+    from ..intervals import int_bounds
+    res = rc.res
+    ev = rc.new_eval()
+    pts = ev.point("points", True)
+    knees = ev.symbol("knees", True)
+    ev.len_map = {"points": sym("n"), "knees": sym("K")}
+    args = {"points": pts, "knees": knees}
+    if extra_args:
+        args.update(extra_args(ev))
+    try:
+        out = ev.eval_function(fi, args)
+    except Unsupported as e:
+        raise AnalysisError(f"{fi.qualname}: not modelled: {e}")
+    ok = True
+    n = 0
+    for g, v in out.returns:
+        if isinstance(v, Rat) and v.equals(knees):
+            n += 1
+            # g may be a disjunction of paths: every disjunct must bound K by 1
+            parts = g.a if g.kind == "or" else (g,)
+            for part in parts:
+                lo, hi = int_bounds(part, sym("K"))
+                if hi is None or hi > 1:
+                    ok = False
+                    res.violation(rule, fi.module, fi.name, fi.node,
+                                  f"the knees are returned unfiltered under {part}, which admits two or more knees: the selection rule is skipped for them",
+                                  str(part), "return knees only when len(knees) <= 1", construct="short input guard")
+    if ok:
+        res.ok(rule, f"{fi.qualname}:short-input", f"{n} early return(s) of the input itself, each guarded by len(knees) <= 1")
+    return ok
+
+
 def _worst(rc: RuleCtx):
     res = rc.res
     fi = rc.func("postprocessing.filter_worst_knees")
     mod = fi.module
+    check_short_input(rc, "W1", fi)
     ev, env, loop, post, fr = loop_env(rc, fi)
     L = output_list(fi, post, env)
     knees, pts = env["knees"], env["points"]
